@@ -7,7 +7,7 @@ func init() {
 			"(G13) every pointer stored in Route.Agency, Stop.Parent, Transfer.From/To, ScheduledTrip.Route/Service/Shape, ScheduledStopTime.Stop resolves (through phis, id maps and local cells) to element addresses &S[i] of the result's own collection S, never the address of a copy; the address is taken only after S stopped growing (not inside the loop that appends to it) and each result collection is written by a single phase; id maps pair each element's own id with its own address (same index); the index map of stops satisfies the index-map lemma (C05 G2); " +
 			"at every append of an entity the references GTFS requires are non-nil (E1 facts at the append site); " +
 			"(FOREST) only parseStops stores Stop.Parent, every non-nil store is dominated by the negative outcome of a bounded ancestor test on exactly the two nodes being linked, so no store can close a cycle, and Stop.Root's walk along Parent terminates. " +
-			"A reference taken by position (`&agencies[0]`, the sole agency) is used only on paths on which an id cell of the row was found blank. Not decided: correctness of the ancestor walk beyond its checked shape (bounded counter, compares with the node being linked, answers true when the bound is hit). The row a parser reads is the row of the file (csv reader configured with ReuseRecord only, the row layer hands out the current record) and the accessors answer cells as read, so a reference is resolved from the id its own row gives, compared with ids read the same way.",
+			"A reference taken by position (`&agencies[0]`, the sole agency) is used only on paths on which an id cell of the row was found blank. Not decided: correctness of the ancestor walk beyond its checked shape (bounded counter, compares with the node being linked, answers true when the bound is hit). The row a parser reads is the row of the file (csv reader configured with ReuseRecord only, the row layer hands out the current record) and the accessors answer cells as read, so a reference is resolved from the id its own row gives, compared with ids read the same way. Files without a byte order mark reach the csv reader undecoded (encoding.Nop fallback), so ids are compared as written.",
 		Rules: []Rule{
 			{Name: "A4", Doc: "the row a parser reads is the row of the file: the csv reader is configured to recycle its record and nothing else, and the row layer hands out the cells of the current record (a reference is resolved from what its own row says)", MinInstances: 1, Run: func(c *Ctx) { runReaderDiscipline(c); csvSideObligations(c) }},
 			{Name: "G13", Doc: "result-pointer provenance, growth discipline, id-map agreement", MinInstances: 8, Run: runRefRules},
